@@ -321,6 +321,17 @@ func buildLeaves() []*Leaf {
 				return strings.Join(p, ",")
 			},
 			Gen: func(r *fw.Rand, uniq int) reflect.Value { return rv([]uint16{uint16(uniq), 65535}) }},
+		{Name: "[]uint64", Type: reflect.TypeOf([]uint64{}), Caps: CapEnv | CapFlag | CapRef,
+			Text: func(v reflect.Value) string {
+				p := []string{}
+				for _, x := range v.Interface().([]uint64) {
+					p = append(p, strconv.FormatUint(x, 10))
+				}
+				return strings.Join(p, ",")
+			},
+			Gen: func(r *fw.Rand, uniq int) reflect.Value {
+				return rv([]uint64{uint64(uniq), 1 << 63, math.MaxUint64 - uint64(uniq)})
+			}},
 		{Name: "[]float64", Type: reflect.TypeOf([]float64{}), Caps: CapEnv | CapFile | CapRef,
 			Text: func(v reflect.Value) string {
 				p := []string{}
